@@ -62,6 +62,7 @@ def implicit_trapezoid(dae: nDAE,
     T[0] = t0
 
     p = dae.p
+    broke = False
     while T_end - tt > abs(dt) / 10:
         My0 = dae.M @ y0
         F0 = dae.F(t0, y0, p).copy()
@@ -73,6 +74,11 @@ def implicit_trapezoid(dae: nDAE,
         y1 = sol.y
         stats.ndecomp = stats.ndecomp + sol.stats.nstep
         stats.nfeval = stats.nfeval + sol.stats.nstep
+        if not sol.stats.succeed:
+            # the step is not accepted: y1 does not satisfy the step equation
+            print(f"Trapezoidal broke at time={tt} due to non-convergence")
+            broke = True
+            break
 
         tt = tt + dt
         nt = nt + 1
@@ -88,5 +94,6 @@ def implicit_trapezoid(dae: nDAE,
     if opt.pbar:
         pbar.close()
     stats.nstep = nt
+    stats.succeed = not broke
 
     return daesol(T, Y, stats=stats)
